@@ -5,30 +5,50 @@ import UtilModel.Keyed.Corollaries
 namespace UtilModel.Keyed
 open UtilModel
 
-/-- a key that is `leaving` stays in the set under every event except `advance` -/
-theorem leaving_step (s s' : St) (e : Ev) (hI : RInv s) (hs : step s e = some s') (he : e ≠ .advance)
-    (k d ep : Nat) (h : (abs s).st k = .leaving d ep) : (abs s').inSet k = true := by
+/-- a key that is `leaving` stays in the set under every event except the callback of its own removal
+timer -/
+theorem leaving_step (s s' : St) (e : Ev) (hI : RInv s) (hs : step s e = some s') (he : e ≠ .timerRemove k)
+    (d ep : Nat) (h : (abs s).st k = .leaving d ep) : (abs s').inSet k = true := by
   have hr := (step_refines s s' e hI hs).1
   rw [hr]
   cases e with
-  | advance => exact absurd rfl he
-  | exec =>
+  | timerRemove k' =>
+    have hkk : k ≠ k' := fun e' => he (by rw [e'])
+    simp only [specEv, ASt.inSet]
+    rw [expire_other _ k k' hkk, h]; rfl
+  | exec id =>
     simp only [specEv]
     split
     · exact specStep_keeps_leaving _ _ _ k d ep h
     · exact inSet_of_leaving _ k d ep h
+  | advance => exact inSet_of_leaving _ k d ep h
   | config c => exact inSet_of_leaving _ k d ep h
   | _ => exact inSet_of_leaving _ k d ep h
 
+/-- that callback runs only after the epoch in which the timer was armed has ended -/
+theorem timerRemove_after_advance (s s' : St) (k : Nat) (hs : step s (.timerRemove k) = some s') :
+    ∃ r e, s.key k = some r ∧ r.deferRemove = some e ∧ e < s.epoch := by
+  simp only [step] at hs
+  split at hs
+  · rename_i r hr
+    split at hs
+    · rename_i hdue
+      cases hdr : r.deferRemove with
+      | none => simp [dueOpt, hdr] at hdue
+      | some e => exact ⟨r, e, hr, hdr, by simpa [dueOpt, hdr] using hdue⟩
+    · simp at hs
+  · simp at hs
+
 /-- a `present` key stays `present` (same data) under every event that is not the critical section
-of a call: in particular the end of an epoch does not remove it -/
-theorem present_step (s s' : St) (e : Ev) (hI : RInv s) (hs : step s e = some s') (he : e ≠ .exec)
+of a call: in particular neither the end of an epoch nor a timer callback removes it -/
+theorem present_step (s s' : St) (e : Ev) (hI : RInv s) (hs : step s e = some s') (he : ∀ id, e ≠ .exec id)
     (k d : Nat) (h : (abs s).st k = .present d) : (abs s').st k = .present d := by
   have hr := (step_refines s s' e hI hs).1
   rw [hr]
   cases e with
-  | exec => exact absurd rfl he
-  | advance => exact advance_present _ k d h
+  | exec id => exact absurd rfl (he id)
+  | advance => exact h
+  | timerRemove k' => exact expire_present _ k k' d h
   | config c => exact h
   | _ => exact h
 
@@ -92,11 +112,43 @@ theorem instStep_cfg (s s' : St) (g i : Nat) (f : G → Inst → Option Inst) (h
 
 /-- a call is pending only with a configuration, and only if the object under test has that call -/
 structure CInv (s : St) : Prop where
-  call : ∀ id op, s.call = .invoked id op → ∃ c, s.cfg = some c ∧ op.allowed c.rc = true
-  idle : s.cfg = none → s.call = .idle
+  call : ∀ id op, Call.invoked id op ∈ s.calls → ∃ c, s.cfg = some c ∧ op.allowed c.rc = true
 
-theorem cinv_of_same {s s' : St} (h : CInv s) (hc : s'.cfg = s.cfg) (hcall : s'.call = s.call) : CInv s' :=
-  ⟨fun id op hi => by rw [hc]; exact h.call id op (hcall ▸ hi), fun hn => by rw [hcall]; exact h.idle (hc ▸ hn)⟩
+theorem cinv_of_same {s s' : St} (h : CInv s) (hc : s'.cfg = s.cfg) (hcall : s'.calls = s.calls) : CInv s' :=
+  ⟨fun id op hi => by rw [hc]; exact h.call id op (hcall ▸ hi)⟩
+
+/-- calls only leave the list or change from `invoked` to `done` -/
+theorem cinv_of_sub {s s' : St} (h : CInv s) (hc : s'.cfg = s.cfg)
+    (hsub : ∀ id op, Call.invoked id op ∈ s'.calls → Call.invoked id op ∈ s.calls) : CInv s' :=
+  ⟨fun id op hi => by rw [hc]; exact h.call id op (hsub id op hi)⟩
+
+theorem takeCtor_invoked (cs cs' : List Call) (k d : Nat) (h : takeCtor cs k d = some cs') (id : Nat) (op : Op)
+    (hi : Call.invoked id op ∈ cs') : Call.invoked id op ∈ cs := by
+  induction cs generalizing cs' with
+  | nil => simp [takeCtor] at h
+  | cons c cs ih =>
+    cases c with
+    | invoked id' op' =>
+      simp only [takeCtor, Option.map_eq_some_iff] at h
+      obtain ⟨r, hr, rfl⟩ := h
+      simp only [List.mem_cons] at hi ⊢
+      rcases hi with hi | hi
+      · exact Or.inl hi
+      · exact Or.inr (ih r hr hi)
+    | done id' q res =>
+      simp only [takeCtor] at h
+      split at h
+      · simp at h; subst h
+        simp only [List.mem_cons] at hi ⊢
+        rcases hi with hi | hi
+        · cases hi
+        · exact Or.inr hi
+      · simp only [Option.map_eq_some_iff] at h
+        obtain ⟨r, hr, rfl⟩ := h
+        simp only [List.mem_cons] at hi ⊢
+        rcases hi with hi | hi
+        · cases hi
+        · exact Or.inr (ih r hr hi)
 
 theorem cinv_step (s s' : St) (e : Ev) (h : CInv s) (hs : step s e = some s') : CInv s' := by
   cases e with
@@ -106,7 +158,9 @@ theorem cinv_step (s s' : St) (e : Ev) (h : CInv s) (hs : step s e = some s') : 
     · rename_i hn
       simp at hs; subst hs
       have hnone : s.cfg = none := by simpa using hn
-      exact ⟨fun id op hi => (by rw [h.idle hnone] at hi; cases hi), fun hn' => (by cases hn')⟩
+      refine ⟨fun id op hi => ?_⟩
+      obtain ⟨c', hc', _⟩ := h.call id op hi
+      rw [hnone] at hc'; cases hc'
     · simp at hs
   | inv id op =>
     simp only [step] at hs
@@ -116,41 +170,42 @@ theorem cinv_step (s s' : St) (e : Ev) (h : CInv s) (hs : step s e = some s') : 
       split at hs
       · rename_i hg
         simp at hs; subst hs
-        refine ⟨?_, fun hn => by rw [hc] at hn; cases hn⟩
+        refine ⟨?_⟩
         intro id' op' hcall
-        simp at hcall
-        obtain ⟨_, rfl⟩ := hcall
-        exact ⟨c, hc, hg.2.2⟩
+        simp only [List.mem_append, List.mem_singleton] at hcall
+        rcases hcall with hcall | hcall
+        · exact h.call id' op' hcall
+        · simp only [Call.invoked.injEq] at hcall
+          obtain ⟨_, rfl⟩ := hcall
+          exact ⟨c, hc, hg⟩
       · simp at hs
-  | exec =>
+  | exec id =>
     simp only [step] at hs
     split at hs
-    · rename_i id op hc
+    · rename_i op hc
       simp at hs; subst hs
-      refine ⟨fun id' op' hi => (by cases hi), ?_⟩
-      intro hn
-      have : s.cfg = none := by rw [← cfg_execOp s op]; exact hn
-      rw [h.idle this] at hc; cases hc
+      refine cinv_of_sub h (s' := { (execOp s op).1 with
+        calls := s.calls.map (fun c => if c = Call.invoked id op then Call.done id (execOp s op).2.1 (execOp s op).2.2 else c) })
+        (cfg_execOp s op) ?_
+      intro id' op' hi
+      simp only [List.mem_map] at hi
+      obtain ⟨c, hc1, hc2⟩ := hi
+      split at hc2
+      · cases hc2
+      · subst hc2; exact hc1
     · simp at hs
   | ctor k d =>
     simp only [step] at hs
     split at hs
-    · rename_i id cs res hc
-      split at hs
-      · simp at hs; subst hs
-        refine ⟨fun id' op' hi => (by cases hi), ?_⟩
-        intro hn
-        have := h.idle hn
-        rw [this] at hc; cases hc
-      · simp at hs
+    · rename_i cs hcs
+      simp at hs; subst hs
+      exact cinv_of_sub h rfl (fun id op hi => takeCtor_invoked s.calls cs k d hcs id op hi)
     · simp at hs
   | ret id res =>
     simp only [step] at hs
     split at hs
-    · split at hs
-      · simp at hs; subst hs
-        exact ⟨fun id' op' hi => (by cases hi), fun _ => rfl⟩
-      · simp at hs
+    · simp at hs; subst hs
+      exact cinv_of_sub h rfl (fun id' op' hi => List.mem_of_mem_erase hi)
     · simp at hs
   | proceed g i =>
     have := instStep_abs s s' g i _ hs
@@ -243,7 +298,7 @@ theorem cinv_step (s s' : St) (e : Ev) (h : CInv s) (hs : step s e = some s') : 
     · simp at hs
 
 theorem cinv_reachable (s : St) (h : model.Reachable s) : CInv s :=
-  model.invariant CInv ⟨fun id op hi => (by cases hi), fun _ => rfl⟩
+  model.invariant CInv ⟨fun id op hi => (by cases hi)⟩
     (fun s e s' hi hs => cinv_step s s' e hi hs) s h
 
 /-- one step keeps "a key with a live reference is present" on an object that is a `KeyedRefCount` -/
@@ -252,15 +307,16 @@ theorem rcOk_step (s s' : St) (e : Ev) (hI : RInv s) (hC : CInv s) (hs : step s 
   have hr := (step_refines s s' e hI hs).1
   rw [hr]
   cases e with
-  | exec =>
+  | exec id =>
     simp only [specEv]
     split
-    · rename_i id op hc
-      obtain ⟨c, hcfg, hall⟩ := hC.call id op hc
+    · rename_i op hc
+      obtain ⟨c, hcfg, hall⟩ := hC.call id op (pendingOp_mem s.calls id op hc)
       rw [hrc c hcfg] at hall
       exact rcOk_specStep _ _ op h hall
     · exact h
   | advance => exact rcOk_advance _ h
+  | timerRemove k => exact rcOk_expire _ k h
   | config c => exact h
   | _ => exact h
 
